@@ -1973,16 +1973,25 @@ insert_list:
         if (!q.th || !cnt || !m_ooo_resume)
             return;
         SCOPED_LOCK(q.lock);
-        for (auto th = q.th->next();
-                  th!= q.th && cnt;
-                  th = th->next()) {
-            SCOPED_LOCK(th->lock);
+        auto lst = (thread_list*)&q;
+        for (auto th = q.th->next(); th!= q.th && cnt; ) {
+            auto next = th->next();     // th may be taken out of the list below
+            // the usual order is thread lock before waitq lock; we hold q.lock already,
+            // so only try: a waiter that is busy (timing out / being interrupted) is skipped
+            auto& thlock = th->lock;
+            if (thlock.try_lock() != 0) { th = next; continue; }
+            DEFER(thlock.unlock());
             auto& c = th->semaphore_count;
             if (c <= cnt) {
                 cnt -= c;
                 PHOTON_VERIF_POINT(verif::SEM_RESUME, this, c, th);
+                // q.lock is held: dequeue th here, otherwise dequeue_ready_atomic()
+                // would lock q.lock again and spin forever
+                lst->erase(th);
+                th->waitq = nullptr;
                 prelocked_thread_interrupt(th, -1);
             }
+            th = next;
         }
     }
     inline bool semaphore::try_subtract(uint64_t count) {
